@@ -9,6 +9,8 @@ import (
 	"time"
 
 	corev1 "k8s.io/api/core/v1"
+	metav1 "k8s.io/apimachinery/pkg/apis/meta/v1"
+	"k8s.io/apimachinery/pkg/labels"
 	"k8s.io/apimachinery/pkg/util/intstr"
 
 	v1 "github.com/DataDog/extendeddaemonset/api/v1alpha1"
@@ -151,6 +153,7 @@ type ERSView struct {
 	Role          string
 	Canary        map[string]bool
 	FirstWriteSeq uint64
+	PodListSeq    uint64                         // sequence number of the last pod listing before the first write
 	Settings      []*v1.ExtendedDaemonsetSetting // as listed by the sync, in list order
 	PodListFailed bool                           // a pod listing before the first write returned an error
 	// SettingsListFailed: the listing of the settings returned an error (Settings then holds the stored ones)
@@ -216,6 +219,7 @@ func ersView(inv *simapi.Invocation) *ERSView {
 				continue
 			}
 			v.HasPods = true
+			v.PodListSeq = c.Seq
 			for _, o := range c.Objs {
 				k := o.GetNamespace() + "/" + o.GetName()
 				if !seenPod[k] {
@@ -384,6 +388,32 @@ func (m *Monitors) onERS(inv *simapi.Invocation, out kit.Outcome) {
 			if createdOn[node] == 2 {
 				m.viol("C01", "C01.create-once", attrs, inv, d)
 			}
+			// store level: a live pod this controller created earlier for the same ExtendedDaemonSet and node, which
+			// was in the store when the sync listed the pods but which the listing did not return (it does not carry the
+			// ExtendedDaemonSet's name label), is still a pod of the ExtendedDaemonSet the node carries
+			for k, rec := range m.w.CreatedFor {
+				if rec.EDS != v.EDS.Name || rec.Node != node || !strings.HasPrefix(k, v.EDS.Namespace+"/") || rec.Seq >= v.PodListSeq || v.PodListSeq == 0 {
+					continue
+				}
+				o := m.w.S.Peek(simapi.KindPod, v.EDS.Namespace, strings.TrimPrefix(k, v.EDS.Namespace+"/"))
+				if o == nil || string(o.GetUID()) != rec.UID {
+					continue
+				}
+				p := o.(*corev1.Pod)
+				if p.DeletionTimestamp != nil || p.Status.Phase == corev1.PodFailed || p.Status.Phase == corev1.PodUnknown || p.Labels[v1.ExtendedDaemonSetNameLabelKey] == v.EDS.Name {
+					continue
+				}
+				d["existing"] = podKey(p)
+				d["existing-labels"] = fmt.Sprint(p.Labels)
+				m.viol("C01", "C01.create-free", merge(attrs, "cause", "own-pod-on-the-node-not-carrying-the-name-label"), inv, d)
+				break
+			}
+			if c.Applied() && c.Post != nil {
+				if m.w.CreatedFor == nil {
+					m.w.CreatedFor = map[string]createdRec{}
+				}
+				m.w.CreatedFor[podKey(c.Post.(*corev1.Pod))] = createdRec{EDS: v.EDS.Name, Node: node, Seq: c.Seq, UID: string(c.Post.GetUID())}
+			}
 			if v.PodListFailed {
 				// "creates a pod for a node only if, in the cluster state it read, that node ... carries
 				// no pod": the pod listing of this sync failed, so nothing it read says the node is free
@@ -414,6 +444,9 @@ func (m *Monitors) onERS(inv *simapi.Invocation, out kit.Outcome) {
 			// C10/C13: pod stamped with the replica set's hash, labels, owner
 			if pod.Annotations[v1.MD5ExtendedDaemonSetAnnotationKey] != v.RS.Spec.TemplateGeneration || v.RS.Annotations[v1.MD5ExtendedDaemonSetAnnotationKey] != v.RS.Spec.TemplateGeneration {
 				m.viol("C13", "C13.hash-chain", map[string]string{"where": "pod"}, inv, d)
+			}
+			if pod.Annotations[v1.MD5ExtendedDaemonSetAnnotationKey] != v.RS.Spec.TemplateGeneration {
+				m.viol("C10", "C10.template-hash", nil, inv, d)
 			}
 			if kit.MarkerOfPod(pod) != kit.MarkerOfTemplate(rsTpl) {
 				m.viol("C13", "C13.pod-template-faithful", nil, inv, d)
@@ -706,6 +739,24 @@ func (m *Monitors) onERS(inv *simapi.Invocation, out kit.Outcome) {
 			ctx.Count("C14.sim-active-desired-judged")
 			if int(st.Desired) != n {
 				m.viol("C14", "C14.rs-desired", map[string]string{"role": role}, inv, map[string]any{"desired": st.Desired, "targetedNodesAsRead": n, "ignoredUnresponsiveNodes": st.IgnoredUnresponsiveNodes})
+			}
+		}
+		if role == "canary" && managed {
+			// the canary replica set targets the canary nodes: it cannot desire more pods than there are distinct
+			// nodes in the list it read, nor report more pods than exist (those it read plus those it just created)
+			distinct := len(v.Canary)
+			have := 0
+			for _, p := range v.Pods {
+				if isDaemonPodOf(p, v.EDS) {
+					have++
+				}
+			}
+			for _, n := range createdOn {
+				have += n
+			}
+			ctx.Count("C14.sim-canary-counts-judged")
+			if int(st.Desired) > distinct || int(st.Current) > have {
+				m.viol("C14", "C14.rs-counts", map[string]string{"role": role}, inv, map[string]any{"status": fmt.Sprintf("desired=%d current=%d ready=%d available=%d", st.Desired, st.Current, st.Ready, st.Available), "distinctCanaryNodesAsRead": distinct, "podsAsReadPlusCreated": have, "canaryNodes": fmt.Sprint(v.EDS.Status.Canary.Nodes)})
 			}
 		}
 		if !(0 <= st.Available && st.Available <= st.Ready && st.Ready <= st.Current && st.Current <= st.Desired) {
@@ -1057,6 +1108,7 @@ func (m *Monitors) onEDS(inv *simapi.Invocation, out kit.Outcome) {
 	// the reconcile got hold of that newer version: what it publishes has to be right for the version it
 	// overwrites, so the rules below judge against that version (equal to the one read at the start in every
 	// reconcile that was not overtaken).
+	firstRead := v.EDS
 	for _, c := range inv.Calls {
 		if c.Kind == simapi.KindEDS && (c.Verb == "update" || c.Verb == "status-update") && c.Applied() && c.Pre != nil {
 			if pre, ok := c.Pre.(*v1.ExtendedDaemonSet); ok && pre.Namespace == v.EDS.Namespace && pre.Name == v.EDS.Name && pre.ResourceVersion != v.EDS.ResourceVersion {
@@ -1259,6 +1311,15 @@ func (m *Monitors) onEDS(inv *simapi.Invocation, out kit.Outcome) {
 		}
 	}
 	// C05: promotion rule (only-if direction)
+	if rec := v.EDS.Status.ActiveReplicaSet; activeBefore == nil && rec != "" && !v.RSListFailed && firstRead.Status.ActiveReplicaSet == rec {
+		// "if the recorded active replica set no longer exists the matching one is adopted directly": the recorded one was
+		// not in the listing this reconcile obtained, but it was recorded before the reconcile began and it is still in
+		// the store, as a replica set of this ExtendedDaemonSet: it exists, and the promotion rule applies
+		if st := kit.GetRS(m.w.S, v.EDS.Namespace, rec); st != nil && rsOwnedBy(st, v.EDS) {
+			ctx.Count("C05.sim-recorded-active-not-listed-but-stored")
+			activeBefore = st
+		}
+	}
 	if activeBefore != nil && upToDate != nil && activeBefore.Name != upToDate.Name {
 		ctx.Count("C05.sim-reconciles-with-canary-candidate")
 		if written.Status.ActiveReplicaSet == upToDate.Name {
@@ -1318,6 +1379,38 @@ func (m *Monitors) onEDS(inv *simapi.Invocation, out kit.Outcome) {
 			}
 			if inView > targeted {
 				targeted = inView
+			}
+			// C15: every node the reconcile adds exists (in what it listed, else in the store), is eligible for the
+			// pod and matches the canary node selector, in whichever form the selector is written
+			var csel labels.Selector
+			if ns := v.EDS.Spec.Strategy.Canary.NodeSelector; ns != nil {
+				if sel, err := metav1.LabelSelectorAsSelector(ns); err == nil {
+					csel = sel
+				}
+			}
+			for _, name := range written.Status.Canary.Nodes {
+				if prev[name] {
+					continue
+				}
+				ctx.Count("C15.sim-added-nodes-judged")
+				node := listed[name]
+				if node == nil {
+					if o := m.w.S.Peek(simapi.KindNode, "", name); o != nil {
+						node = o.(*corev1.Node)
+					}
+				}
+				cause := ""
+				switch {
+				case node == nil:
+					cause = "node-does-not-exist"
+				case !oracle.Eligible(node, &tpl.Spec):
+					cause = "node-not-eligible"
+				case csel != nil && !csel.Matches(labels.Set(node.Labels)):
+					cause = "node-does-not-match-canary-selector"
+				}
+				if cause != "" {
+					m.viol("C15", "C15.valid", map[string]string{"sim": "true", "origin": "newly-added", "cause": cause}, inv, map[string]any{"node": name, "nodes": written.Status.Canary.Nodes, "canary-node-selector": fmt.Sprint(v.EDS.Spec.Strategy.Canary.NodeSelector)})
+				}
 			}
 			want, ok := kit.Resolve(v.EDS.Spec.Strategy.Canary.Replicas, targeted)
 			// percent replicas: the base is the number of nodes the ExtendedDaemonSet targets, i.e. the nodes
@@ -1442,6 +1535,13 @@ func (m *Monitors) rollbackCheck(inv *simapi.Invocation, out kit.Outcome, v *eds
 	}
 	if kit.MarkerOfTemplate(&specWrite.Submitted.(*v1.ExtendedDaemonSet).Spec.Template) != activeMarker {
 		m.viol("C07", "C07.rollback-writes", merge(attrs, "cause", "spec-template-not-restored"), inv, d)
+	} else if h := refTemplateHash(&specWrite.Submitted.(*v1.ExtendedDaemonSet).Spec.Template); activeBefore.Spec.TemplateGeneration != "" && h != activeBefore.Spec.TemplateGeneration {
+		// "restores spec.template to the active replica set's template": the template the active replica set was
+		// created from, whole (metadata included), i.e. the one its recorded hash stands for - anything else leaves
+		// the ExtendedDaemonSet without an up-to-date replica set and starts another rollout
+		d["hash-of-restored-template"] = h
+		d["hash-recorded-by-active-replicaset"] = activeBefore.Spec.TemplateGeneration
+		m.viol("C07", "C07.rollback-writes", merge(attrs, "cause", "restored-template-differs-from-the-one-the-active-replicaset-was-created-from"), inv, d)
 	}
 }
 
